@@ -63,6 +63,8 @@ type tcase struct {
 	Path  apath  `json:"path"`
 	Pl    string `json:"pl"`
 	Ak    string `json:"ak"`
+	Ext   string `json:"ext"`  // extension header chain of the request
+	Rext  string `json:"rext"` // e2e: ... of the response as handed to the client
 	// e2e
 	Cauth bool   `json:"cauth"`
 	Rm    string `json:"rm"`
@@ -87,6 +89,7 @@ type rec struct {
 	// end-to-end cases
 	Cauth     bool   `json:"cauth"`
 	Rm        string `json:"rm"`
+	Rext      string `json:"rext"`
 	Rsub      int    `json:"rsub"`
 	Delivered bool   `json:"delivered"` // a response was handed to the client
 	RHasAuth  bool   `json:"rhasauth"`  // the response as delivered: authenticator present,
@@ -433,7 +436,7 @@ func (h *harness) runCase(id int, c *tcase, sub int, rng *rand.Rand) *rec {
 		tag := h.tag()
 		s := &pktSpec{srcIA: iaC, dstIA: iaS, srcHost: h.w.host(c.Mode, "C", c.Sfam), dstHost: h.w.host(c.Mode, c.Dh, c.Dfam),
 			sport: uint16(pm.cp), dport: uint16(dport), path: c.Path, l4: c.L4, payload: h.payload(c.L4, c.Pl, tag, rng),
-			flow: uint32(rng.Intn(1 << 20)), tc: uint8(rng.Intn(256))}
+			flow: uint32(rng.Intn(1 << 20)), tc: uint8(rng.Intn(256)), ext: c.Ext}
 		if c.Ak != "absent" {
 			s.auth = &authSpec{spi: spiClient, algo: algCMAC, ts: uint64(rng.Int63()) & 0xffffffffffff, key: zeroKey}
 			switch c.Ak {
@@ -449,6 +452,9 @@ func (h *harness) runCase(id int, c *tcase, sub int, rng *rand.Rand) *rec {
 		if c.Ak == "covPld" {
 			qpl = tamperedPl(c.Pl)
 		}
+		if c.Ext == "hbh" {
+			wire = insertHBH(wire)
+		}
 		q, qp := h.w.project(c.Mode, wire, pm)
 		if !qp.ok {
 			panic("the harness built an undecodable packet")
@@ -457,6 +463,10 @@ func (h *harness) runCase(id int, c *tcase, sub int, rng *rand.Rand) *rec {
 		if c.L4 == "scmpx" {
 			q.L4 = "scmpx" // (the message may be a reply type, which the projection names)
 		}
+		if c.L4 == "udp" && c.Ak != "absent" && q.Ext != c.Ext {
+			panic("extension chain built: " + q.Ext + ", wanted: " + c.Ext)
+		}
+		q.Ext = c.Ext
 		r.Q = q
 		r.HasAuth = q.Auth != "absent"
 		r.Expected = q.Aspi == "client" && q.Aalgo == "cmac"
@@ -540,8 +550,8 @@ func TestC13(t *testing.T) {
 	// preflight: a plain request must be answered, an SCMP echo must be answered
 	// by the dispatcher; otherwise every case would run into the sentinel time-out
 	pre := []tcase{
-		{T: "req", Mode: "server", Ul: "srv", L4: "udp", Dp: "srv", Dh: "S", Sfam: 4, Dfam: 4, Path: emptyPath, Pl: "ntp", Ak: "absent"},
-		{T: "req", Mode: "dispatcher", Ul: "eh", L4: "echo", Dp: "-", Dh: "S", Sfam: 4, Dfam: 4, Path: emptyPath, Pl: "data", Ak: "absent"},
+		{T: "req", Mode: "server", Ul: "srv", L4: "udp", Dp: "srv", Dh: "S", Sfam: 4, Dfam: 4, Path: emptyPath, Pl: "ntp", Ak: "absent", Ext: "e2e"},
+		{T: "req", Mode: "dispatcher", Ul: "eh", L4: "echo", Dp: "-", Dh: "S", Sfam: 4, Dfam: 4, Path: emptyPath, Pl: "data", Ak: "absent", Ext: "e2e"},
 	}
 	for i := range pre {
 		r := h.runCase(-1-i, &pre[i], -1, vio.Rand())
@@ -638,6 +648,6 @@ func (h *harness) probeWire(c *tcase) []byte {
 	rng := rand.New(rand.NewSource(1))
 	s := &pktSpec{srcIA: iaC, dstIA: iaS, srcHost: h.w.host(c.Mode, "C", c.Sfam), dstHost: h.w.host(c.Mode, c.Dh, c.Dfam),
 		sport: 1, dport: 2, path: c.Path, l4: c.L4, payload: h.payload(c.L4, c.Pl, make([]byte, 8), rng),
-		auth: &authSpec{spi: spiClient, key: zeroKey}}
+		auth: &authSpec{spi: spiClient, key: zeroKey}, ext: c.Ext}
 	return build(s, rng)
 }
